@@ -418,7 +418,7 @@ func driveQueue[Q bqueue.Queueable](qc queueCase, led ledger[Q], log *addLog, mk
 	<-cdone
 	// Producers have stopped: re-offer the missing next block until the height
 	// reaches N (every block up to N has then been offered at least once).
-	const stepWait = 6 * time.Second
+	const stepWait = 2 * time.Second
 	for {
 		h := led.Height()
 		if h >= N || panicked.Load() != nil {
@@ -637,7 +637,10 @@ func queuePart(t *testing.T, run *ev.Run) {
 		}
 		return runFakeQueue(j.qc), nil
 	}
-	var wg sync.WaitGroup
+	var (
+		wg              sync.WaitGroup
+		confirmedStalls atomic.Int32
+	)
 	ch := make(chan job)
 	workers := 2 * runtime.NumCPU() // blocking-mode runs mostly sleep in the queue's one-second ticker
 	for w := 0; w < workers; w++ {
@@ -651,6 +654,12 @@ func queuePart(t *testing.T, run *ev.Run) {
 					continue
 				}
 				attempts := 1
+				if res.stalled && res.sig == "" && confirmedStalls.Load() >= 3 {
+					// the three-attempt rule has already confirmed stalls in this run:
+					// further ones are only counted
+					run.Obs("queue_stalls_after_confirmed_ones", 1)
+					res.stalled = false
+				}
 				if res.stalled && res.sig == "" {
 					// bounded progress: a single stall is inconclusive, three fresh
 					// attempts that all stall are a violation.
@@ -666,6 +675,9 @@ func queuePart(t *testing.T, run *ev.Run) {
 							break
 						}
 						stalls++
+					}
+					if stalls == 3 {
+						confirmedStalls.Add(1)
 					}
 					if stalls == 3 && res.quiet {
 						res.sig = "accepted-block-lost"
